@@ -654,6 +654,15 @@ func c10Bad(m map[string]any) (bool, string) {
 }
 
 func cmpC10(c hx.Case, impl any, reply map[string]any) hx.Verdict {
+	v := cmpC10x(c, impl, reply)
+	if d := os.Getenv("C10_DEBUG"); d == "all" || (d != "" && !v.IM) {
+		b, _ := json.Marshal(map[string]any{"case": c, "impl": impl, "model": reply["model"], "excl": reply["excl"], "im": v.IM, "is": v.IS})
+		fmt.Fprintln(os.Stderr, "C10CASE "+string(b))
+	}
+	return v
+}
+
+func cmpC10x(c hx.Case, impl any, reply map[string]any) hx.Verdict {
 	im, _ := impl.(map[string]any)
 	model, _ := reply["model"].(map[string]any)
 	bad, why := c10Bad(im)
@@ -1295,8 +1304,14 @@ func c10RandTraffic(r *hx.Rng) hx.Case {
 			req["body"] = ""
 			req["ybody"] = c10YamlTree(r, 3)
 			if r.Chance(60) {
-				for _, rp := range op["responses"].(map[string]any) {
-					rp.(map[string]any)["content"] = map[string]any{yct: map[string]any{"schema": c10WalkSchema(r)}}
+				rps := op["responses"].(map[string]any)
+				codes := make([]string, 0, len(rps))
+				for code := range rps {
+					codes = append(codes, code)
+				}
+				sort.Strings(codes) // every random choice in a fixed order
+				for _, code := range codes {
+					rps[code].(map[string]any)["content"] = map[string]any{yct: map[string]any{"schema": c10WalkSchema(r)}}
 				}
 				resp["ct"] = yct
 				resp["body"] = ""
